@@ -6,6 +6,7 @@ package c12
 import (
 	"encoding/json"
 	"fmt"
+	"runtime/debug"
 
 	"gopkg.in/typ.v4/slices"
 	"verif/harness/core"
@@ -21,6 +22,45 @@ type Case struct {
 	K     int    `json:"k"`     // RemoveSlice length, Grow n, Repeat count
 	Vals  []int  `json:"vals"`  // Insert/Fill/Repeat: [value]; InsertSlice: values; Concat: backing array of b
 	Len2  int    `json:"len2"`  // Concat: len(b)
+	// compact form for the large cases (keeps replay files and samples small): when Gen is set, Arr is
+	// backing(Len, Cap-Len, 0), and Vals is values(NVals) (InsertSlice) / backing(Len2, Cap2-Len2, 5000) (Concat)
+	Gen   bool `json:"gen,omitempty"`
+	Cap   int  `json:"cap,omitempty"`
+	NVals int  `json:"nvals,omitempty"`
+	Cap2  int  `json:"cap2,omitempty"`
+}
+
+var (
+	lastArr         []int
+	lastLen         = -1
+	sBuf, obsBuf    []int
+	wantBuf, valBuf []int
+)
+
+// buf returns a zero-length slice of capacity >= n on the scratch array *b
+func buf(b *[]int, n int) []int {
+	if cap(*b) < n {
+		*b = make([]int, 0, n+n/4+64)
+	}
+	return (*b)[:0]
+}
+
+// expand fills in the arrays of a compact (Gen) case
+func expand(cs Case) Case {
+	if !cs.Gen {
+		return cs
+	}
+	if lastLen != cs.Len || len(lastArr) != cs.Cap || lastArr == nil {
+		lastArr, lastLen = backing(cs.Len, cs.Cap-cs.Len, 0), cs.Len // read-only, shared by consecutive cases
+	}
+	cs.Arr = lastArr
+	switch cs.Fn {
+	case "InsertSlice":
+		cs.Vals = values(cs.NVals)
+	case "Concat":
+		cs.Vals = backing(cs.Len2, cs.Cap2-cs.Len2, 5000)
+	}
+	return cs
 }
 
 func init() {
@@ -32,10 +72,14 @@ func replay(c *core.Ctx, raw json.RawMessage) error {
 	if err := json.Unmarshal(raw, &cs); err != nil {
 		return err
 	}
-	if cs.Len < 0 || cs.Len > len(cs.Arr) || cs.Len2 < 0 || (cs.Fn == "Concat" && cs.Len2 > len(cs.Vals)) {
+	if cs.Gen && (cs.Len < 0 || cs.Cap < cs.Len || cs.NVals < 0 || cs.Len2 < 0 || (cs.Fn == "Concat" && cs.Cap2 < cs.Len2)) {
 		return fmt.Errorf("malformed case")
 	}
-	exec(c, cs)
+	full := expand(cs)
+	if full.Len < 0 || full.Len > len(full.Arr) || full.Len2 < 0 || (full.Fn == "Concat" && full.Len2 > len(full.Vals)) {
+		return fmt.Errorf("malformed case")
+	}
+	execOpt(c, cs, true)
 	return nil
 }
 
@@ -102,6 +146,8 @@ func run(c *core.Ctx) {
 	c.Note(fmt.Sprintf("exhaustive: len 0..%d x spare capacity 0..%d x index -1..len+1 x inserted/removed length 0..%d for Insert, InsertSlice, Remove, RemoveSlice (distinct elements, sentinel garbage in the spare capacity); Fill, Reverse, Clone, Grow n=-1..%d, Concat on the same slices; Fill and Repeat for every length 0..%d; plus random",
 		maxLen, maxSpare, maxK, maxK+1, maxFill))
 
+	heavy(c)
+
 	// random: larger slices, repeated values, mostly valid positions
 	fns := []string{"Insert", "InsertSlice", "Remove", "RemoveSlice", "InsertSlice", "RemoveSlice", "Fill", "Reverse", "Concat", "Clone", "Grow"}
 	for i := c.N(300, 4000, 6000); i > 0; i-- {
@@ -154,6 +200,119 @@ func run(c *core.Ctx) {
 	}
 }
 
+// sizes with extra density around the powers of two (thresholds of runtimes and of "clever" fast paths)
+func sizes(max int) []int {
+	out := []int{0, 1, 2, 3, 5}
+	for p := 8; p <= 4096; p *= 2 {
+		out = append(out, p-1, p, p+1)
+	}
+	out = append(out, 100, 1000, 1500, 3000)
+	var r []int
+	for _, v := range out {
+		if v <= max {
+			r = append(r, v)
+		}
+	}
+	return r
+}
+
+func uniq(xs []int, lo, hi int) []int {
+	seen := map[int]bool{}
+	var r []int
+	for _, x := range xs {
+		if x >= lo && x <= hi && !seen[x] {
+			seen[x] = true
+			r = append(r, x)
+		}
+	}
+	return r
+}
+
+// heavy: oracle-heavy, model-sampled stream. Large capacities with sparse and dense use, large blocks
+// inserted / removed at every kind of position, every relation between what remains and the capacity.
+// Every case is checked by the direct oracle; a small deterministic sample also goes to the Coq model.
+func heavy(c *core.Ctx) {
+	budget := c.N(160000, 1500000, 0) // numbers in the arrays of the sampled cases (Coq time)
+	sample := func(cs Case) bool {
+		cost := 2*cs.Cap + 2*cs.NVals + 2*cs.Cap2 + cs.K + 8
+		if cs.Fn == "Repeat" {
+			cost = cs.K + 8
+		}
+		pct := 2
+		if cost < 200 {
+			pct = 8
+		}
+		if cost > budget || !c.Rng.Chance(pct) {
+			return false
+		}
+		budget -= cost
+		return true
+	}
+	do := func(cs Case) {
+		cs.Gen = true
+		execOpt(c, cs, sample(cs))
+	}
+	defer debug.SetGCPercent(debug.SetGCPercent(1000)) // many short-lived large arrays
+	caps := sizes(4097)
+	for ci, cp := range caps {
+		if cp < 15 {
+			continue // covered exhaustively above
+		}
+		// lengths: empty, sparse (fractions of the capacity and just above them), dense, full
+		lens := uniq([]int{0, 1, cp / 8, cp / 4, cp/4 + 1, cp/2 + 1, cp - 1, cp, c.Rng.Range(0, cp)}, 0, cp)
+		for li, n := range lens {
+			sp := cp - n
+			bad := -1
+			if (ci+li)%2 == 0 {
+				bad = n + 1
+			}
+			idxs := uniq([]int{0, 1, n / 2, n - 1, n, c.Rng.Range(0, n), bad}, -1, n+1)
+			for _, idx := range idxs {
+				do(Case{Fn: "Insert", Len: n, Cap: cp, Index: idx, Vals: []int{100000}})
+				do(Case{Fn: "Remove", Len: n, Cap: cp, Index: idx})
+				// inserted block: tiny, filling the spare capacity exactly / one over, huge
+				for _, k := range uniq([]int{0, 1, sp, sp + 1, 2*cp + 1, c.Rng.Range(0, cp+3)}, 0, 8200) {
+					do(Case{Fn: "InsertSlice", Len: n, Cap: cp, Index: idx, NVals: k})
+				}
+				// removed block: tiny, half, everything up to the tail (and one short / one over), and
+				// whatever leaves a given number of elements (fractions of the capacity and just above)
+				m := n - idx
+				ks := []int{0, 1, m / 2, m - 1, m, m + 1, c.Rng.Range(0, m+1)}
+				for _, rem := range []int{1, cp / 8, cp / 4, cp/4 + 1, cp / 2, cp/2 + 1} {
+					ks = append(ks, n-rem)
+				}
+				for _, k := range uniq(ks, 0, n+2) {
+					do(Case{Fn: "RemoveSlice", Len: n, Cap: cp, Index: idx, K: k})
+				}
+			}
+			do(Case{Fn: "Fill", Len: n, Cap: cp, Vals: []int{7}})
+			do(Case{Fn: "Reverse", Len: n, Cap: cp})
+			do(Case{Fn: "Clone", Len: n, Cap: cp})
+			for _, k := range uniq([]int{-1, 0, 1, sp, sp + 1, n, 256, 4097, c.Rng.Range(0, cp+3)}, -1, 8200) {
+				do(Case{Fn: "Grow", Len: n, Cap: cp, K: k})
+			}
+			for _, n2 := range uniq([]int{0, 1, n, sp, 256, 4097, c.Rng.Range(0, 4097)}, 0, 4097) {
+				do(Case{Fn: "Concat", Len: n, Cap: cp, Len2: n2, Cap2: n2 + c.Rng.Intn(3)*c.Rng.Intn(40)})
+			}
+		}
+	}
+	// Fill / Repeat / Reverse / Clone: every length up to 1100, then around every power of two and every 7th up to 4100
+	for n := 0; n <= 4100; n++ {
+		if n > 1100 && n%7 != 0 && !(n >= 2040 && n <= 2056) && n < 4088 {
+			continue
+		}
+		do(Case{Fn: "Fill", Len: n, Cap: n + (n%5)*(n%7), Vals: []int{3}})
+		do(Case{Fn: "Repeat", K: n, Vals: []int{9}})
+		if n%2 == 0 || n > 1100 {
+			do(Case{Fn: "Reverse", Len: n, Cap: n + n%3})
+		}
+		if n%3 == 0 {
+			do(Case{Fn: "Clone", Len: n, Cap: n + n%4})
+		}
+	}
+	c.Note("oracle-heavy stream: capacities 15..4097 (p-1, p, p+1 for every power of two, and 100, 1000, 1500, 3000) x lengths {0,1,cap/8,cap/4,cap/4+1,cap/2+1,cap-1,cap,random} x positions {0,1,len/2,len-1,len,random,-1 or len+1} x inserted blocks {0,1,spare,spare+1,2cap+1,random} / removed blocks {0,1,half,tail-1,up to the tail,tail+1,random, every block leaving 1,cap/8,cap/4,cap/4+1,cap/2,cap/2+1 elements}; Grow n and Concat second operand over the same kinds of sizes; Fill, Repeat, Reverse, Clone for every length 0..1100 and around the powers of two / every 7th length up to 4100; all checked by the direct oracle (incl. spare capacity, old array, aliasing probes), a deterministic sample also evaluated on the Coq model (stat oracle_only counts the rest)")
+}
+
 func clone(s []int) []int { return append([]int{}, s...) }
 
 func allEq(s []int, v int) bool {
@@ -178,15 +337,20 @@ func scribble(s []int) {
 	}
 }
 
-func exec(c *core.Ctx, cs Case) {
+func exec(c *core.Ctx, cs Case) { execOpt(c, cs, true) }
+
+// execOpt runs one case on the real code and applies the direct oracle; the case also goes to the
+// Coq model iff emit (the oracle-heavy stream samples).
+func execOpt(c *core.Ctx, cs Case, emit bool) {
 	c.Begin(cs)
+	cs = expand(cs)
 	c.Count("fn_" + cs.Fn)
 	n, capacity := cs.Len, len(cs.Arr)
 	sp := capacity - n
-	s := make([]int, n, capacity)
-	old := s[:capacity] // the original backing array, whatever happens to s
+	s := buf(&sBuf, capacity)[:n:capacity] // len n, cap exactly capacity, on a scratch array used for nothing else
+	old := s[:capacity]                    // the original backing array, whatever happens to s
 	copy(old, cs.Arr)
-	vals := clone(cs.Vals)
+	vals := append(buf(&valBuf, len(cs.Vals)), cs.Vals...)
 	var b, oldB []int
 	if cs.Fn == "Concat" {
 		b = make([]int, cs.Len2, len(cs.Vals))
@@ -233,7 +397,7 @@ func exec(c *core.Ctx, cs Case) {
 	if kind != "" {
 		c.Count("panic_" + kind)
 	}
-	obsArr, obsLen := clone(r[:cap(r)]), len(r)
+	obsArr, obsLen := append(buf(&obsBuf, cap(r)), r[:cap(r)]...), len(r)
 	vis := obsArr[:obsLen]
 	in := cs.Arr[:n]
 	inPlace := false
@@ -257,7 +421,7 @@ func exec(c *core.Ctx, cs Case) {
 		if sp > 0 && inPlace && cs.Index > 0 && cs.Index < n && k > 0 {
 			c.Nontrivial()
 		}
-		want := append(append(clone(in[:cs.Index]), ins...), in[cs.Index:]...)
+		want := append(append(append(buf(&wantBuf, n+k), in[:cs.Index]...), ins...), in[cs.Index:]...)
 		if kind != "" {
 			fail("panic at a valid position")
 		} else if !core.Eq(vis, want) {
@@ -283,7 +447,7 @@ func exec(c *core.Ctx, cs Case) {
 		if sp > 0 && cs.Index > 0 && cs.Index+k < n && k > 0 {
 			c.Nontrivial()
 		}
-		want := append(clone(in[:cs.Index]), in[cs.Index+k:]...)
+		want := append(append(buf(&wantBuf, n), in[:cs.Index]...), in[cs.Index+k:]...)
 		if kind != "" {
 			fail("panic at a valid position")
 		} else if !core.Eq(vis, want) {
@@ -391,6 +555,10 @@ func exec(c *core.Ctx, cs Case) {
 
 	if kind != "" && returnsNew {
 		obsArr, obsLen = nil, 0
+	}
+	if !emit {
+		c.Count("oracle_only")
+		return
 	}
 	c.Emit(fmt.Sprintf("Case F%s %s %s %s %s %s %s %s %s %s", cs.Fn, core.ZList(cs.Arr), core.Z(cs.Len), core.Z(cs.Index),
 		core.Z(cs.K), core.ZList(cs.Vals), core.Z(cs.Len2), core.ZList(obsArr), core.Z(obsLen), core.Res(kind, "tt")))
